@@ -237,7 +237,11 @@ def run(tier):
     rnd = [''.join(rng.choice(pool_chars) for _ in range(rng.randint(3, 40))) for _ in range(400 if tier == 'quick' else 6000)]
     rnd += ['n:1', 'm:', 'x:', '-:', 'z:', 's:x', 'r:abc def', 't:2020-01-01T00:00:00Z UTC', 'u:http://x', 'b:text/plain',
             'c:1.0,2.0', 'd:2020-01-01', 'h:12:00:00', 'x:hex:ff', 'N', 'NA', 'M', 'T', 'ver:"3.0"', '>>', '\n\n', '<<ver:"3.0"\nx\n>>',
-            '[x]', '"q"', '{a}', 'R', 'INF', 'NaN', '-INF', '\\', '\\"', '$', '`', '``', 'a\nb,c', ',', ',,', ' ', '  ']
+            '[x]', '"q"', '{a}', 'R', 'INF', 'NaN', '-INF', '\\', '\\"', '$', '`', '``', 'a\nb,c', ',', ',,', ' ', '  ',
+            # text that LOOKS like an escape sequence (a literal backslash followed by escape letters / hex digits)
+            '\\u0041', '\\u0022', 'C:\\temp\\u00e9t', '\\U0041', '\\\\u0041', '\\u005c', '\\u005cn', '\\n', '\\t', '\\b',
+            '\\$', '\\`', '\\"', 'x\\', '\\u00', '\\u12345', '\\:', '\\/', '\\#', '\\[', '\\@', '\\&', '\\=', '\\;',
+            '%41', '&amp;', '&#65;', '\\x41', '\\101', '\\N{BULLET}', '${x}', '$x', '{0}', '%s']
     for pos in POSITIONS:
         for i in range(0, len(rnd), 250):
             jobs.append((pos, rnd[i:i + 250]))
